@@ -108,7 +108,7 @@ func cmpNode(rep *Report, prop, line, what string, impl NodeSt, modelText string
 	}
 }
 
-var electKeys = []string{"role", "term", "vote", "pw", "log", "ci", "fol"}
+var electKeys = []string{"role", "term", "vote", "pw", "log", "ci", "fol", "le", "sv", "rs", "prep", "cfg", "com"}
 
 func TestE3Election(t *testing.T) {
 	rep := NewReport("E3-election")
